@@ -14,12 +14,23 @@ type chanCore struct {
 	st     Stamp
 	wrap   *cancelCtx // non-nil: close-only view of a context's Done channel
 	label  string
+
+	// capn > 1: sends and receives on a non-empty, non-full buffer commute, so
+	// they are chained separately (senders among themselves, receivers among
+	// themselves, each item to its receiver, a send to the receive that freed
+	// its slot, close to everything)
+	sst, rst, cst Stamp
+	nsent, nrecv  int
+	rstamps       []Stamp
 }
+
+func (k *chanCore) split() bool { return k.capn > 1 }
 
 // Chan is the controlled replacement of a native Go channel.
 type Chan[T any] struct {
 	chanCore
-	buf []T
+	buf    []T
+	stamps []Stamp // capn > 1: stamp of each buffered item
 }
 
 // NewChan replaces make(chan T, n).
@@ -99,6 +110,30 @@ func (r *RecvC[T]) complete(t *Task) {
 		return
 	}
 	t.tick(kChan, c.id, 0)
+	if c.split() {
+		t.observe(&c.rst)
+		if c.n > 0 {
+			r.Val, r.Ok = c.buf[0], true
+			t.observe(&c.stamps[0])
+			var z T
+			c.buf[0] = z
+			c.buf = c.buf[1:]
+			c.stamps = c.stamps[1:]
+			c.n--
+			c.nrecv++
+			if c.capn < 1024 {
+				c.rstamps = append(c.rstamps, t.st)
+			}
+		} else if c.closed {
+			t.observe(&c.cst)
+			var z T
+			r.Val, r.Ok = z, false
+		} else {
+			panic("mc: receive completed on an empty open channel")
+		}
+		c.rst = t.st
+		return
+	}
 	t.observe(&c.st)
 	if c.n > 0 {
 		r.Val, r.Ok = c.buf[0], true
@@ -126,6 +161,26 @@ func (s *SendC[T]) take(from Case) { panic("mc: take on send case") }
 func (s *SendC[T]) complete(t *Task) {
 	c := s.C
 	t.tick(kChan, c.id, 1)
+	if c.split() {
+		t.observe(&c.sst)
+		if c.closed {
+			t.observe(&c.cst)
+			c.sst = t.st
+			panic("send on closed channel")
+		}
+		if c.n >= c.capn {
+			panic("mc: send completed on a full channel")
+		}
+		if c.nsent >= c.capn && c.capn < 1024 {
+			t.observe(&c.rstamps[c.nsent-c.capn])
+		}
+		c.nsent++
+		c.buf = append(c.buf, s.V)
+		c.stamps = append(c.stamps, t.st)
+		c.n++
+		c.sst = t.st
+		return
+	}
 	t.observe(&c.st)
 	if c.closed {
 		c.st = t.st
@@ -337,12 +392,39 @@ func Close[T any](c *Chan[T]) {
 	}
 	s.yield(t, opSimple{"close " + c.label})
 	t.tick(kClose, c.id, 0)
-	t.observe(&c.st)
-	c.st = t.st
+	c.touchAll(t)
 	if c.closed {
 		panic("close of closed channel")
 	}
 	c.closed = true
+}
+
+// CloseIfOpen closes c unless it is already closed, in one scheduling step.
+func CloseIfOpen[T any](c *Chan[T]) bool {
+	s, t := cur()
+	if s.aborting {
+		return false
+	}
+	s.yield(t, opSimple{"close-once " + c.label})
+	t.tick(kClose, c.id, 1)
+	c.touchAll(t)
+	if c.closed {
+		return false
+	}
+	c.closed = true
+	return true
+}
+
+// touchAll orders an operation after and before everything else on the channel.
+func (k *chanCore) touchAll(t *Task) {
+	t.observe(&k.st)
+	if k.split() {
+		t.observe(&k.sst)
+		t.observe(&k.rst)
+		t.observe(&k.cst)
+		k.sst, k.rst, k.cst = t.st, t.st, t.st
+	}
+	k.st = t.st
 }
 
 type opSimple struct{ d string }
